@@ -349,9 +349,14 @@ theorem cidcoding_spec (a1 r b1 a2 o b2 : Bytes)
     (hr : (∀ x, r.head? = some x → isPySpace x = false) ∧ ∀ x, r.getLast? = some x → isPySpace x = false)
     (ho : (∀ x, o.head? = some x → isPySpace x = false) ∧ ∀ x, o.getLast? = some x → isPySpace x = false) :
     cidCoding (some (a1 ++ r ++ b1)) (some (a2 ++ o ++ b2)) = r ++ [45] ++ o := by
-  simp only [cidCoding, Option.getD_some]
+  simp only [cidCoding, Option.getD_some, Gen.CIDFont.CIDCODING_SEP]
   rw [pyStrip_pad a1 r b1 (fun c hc => hs c (by simp [hc])) (fun c hc => hs c (by simp [hc])) hr.1 hr.2,
     pyStrip_pad a2 o b2 (fun c hc => hs c (by simp [hc])) (fun c hc => hs c (by simp [hc])) ho.1 ho.2]
+
+/-- The keywords the model treats as "discard the operands" are exactly the `self.popall(); return` branches of
+`CMapParser.do_keyword`, regenerated from cmapdb.py on every run (an edit there breaks this proof, and with it
+`codespace_ignored`'s link to the code). -/
+theorem popall_keywords_tied : popallKeywords = Gen.CIDFont.POPALL_KEYWORDS := by decide
 
 /-- A missing or ill-typed Registry / Ordering reads as `unknown`. -/
 theorem cidcoding_unknown : cidCoding none none = unknownBytes ++ [45] ++ unknownBytes := by decide
